@@ -63,6 +63,8 @@ class Report:
         bad = set(own for _, own, _ in self.instances)
         inherited = 0
         for ident, own, prefixes in sorted(self.instances, key=lambda t: len(t[2])):
+            if ident is None:
+                continue              # divergence that belongs to another property: only blocks descendants
             if any(p in bad for p in prefixes):
                 inherited += 1
                 continue
@@ -185,14 +187,14 @@ def replay_dump(path, judge, ctx, report, workers=16):
 
 def pviolation(part, site, observable, example, own=None, prefixes=()):
     """Record a violation. With `own` (program key) it takes part in first-divergence attribution."""
-    ident = '%s | %s' % (site, observable)
+    ident = '%s | %s' % (site, observable) if observable is not None else None
     if own is None:
         part['counts'][ident] = part['counts'].get(ident, 0) + 1
         part['violations'].setdefault(ident, example)
         return
     part.setdefault('instances', []).append((ident, own, tuple(prefixes)))
     ex = part.setdefault('examples', {})
-    if sum(1 for k in ex if k[0] == ident) < 3:
+    if ident is not None and sum(1 for k in ex if k[0] == ident) < 3:
         ex[(ident, own)] = example
 
 
